@@ -131,6 +131,25 @@ def check_statement(text):
         if a.kind == 'punct' and a.text in ')]}' and b.kind in ('param', 'string', 'number'):
             problems.append(('R1', f'"{a.text}" directly followed by operand "{b.text[:20]}" at offset {b.pos} (lost comma or operator?): '
                                    f'...{text[max(0, a.pos - 20):b.pos + 20]!r}'))
+    # empty operands: a clause / operator keyword that is followed by nothing it could apply to, and empty elements of maps
+    # and lists (", }", "{ ,", ", ,") - what is left when a statement is assembled from an empty collection of fragments
+    NEED_OPERAND = {'WHERE', 'AND', 'OR', 'XOR', 'NOT', 'SET', 'ON', 'BY', 'RETURN', 'WITH', 'MATCH', 'UNWIND', 'DELETE', 'REMOVE', 'MERGE', 'IN'}
+    for i, a in enumerate(toks):
+        b = toks[i + 1] if i + 1 < len(toks) else None
+        if a.kind == 'ident' and a.text.upper() in NEED_OPERAND and not (i > 0 and toks[i - 1].kind == 'punct' and toks[i - 1].text in (':', '.')):
+            if a.text.upper() == 'WITH' and i > 0 and toks[i - 1].kind == 'ident' and toks[i - 1].text.upper() in ('STARTS', 'ENDS'):
+                continue
+            empty = b is None or (b.kind == 'punct' and b.text in ')]},;') or \
+                (b.kind == 'ident' and b.text.upper() in (CLAUSE_KEYWORDS | {'AND', 'OR', 'XOR'}) - {'OPTIONAL'} and
+                 not (a.text.upper() in ('ON',) and b.text.upper() in ('CREATE', 'MATCH')) and
+                 not (a.text.upper() == 'RETURN' and False))
+            if empty:
+                problems.append(('R1', f'"{a.text}" at offset {a.pos} has nothing to apply to (followed by '
+                                       f'{"the end of the statement" if b is None else repr(b.text)}): ...{text[max(0, a.pos - 25):a.pos + 30]!r}'))
+        if a.kind == 'punct' and a.text == ',' and (b is None or (b.kind == 'punct' and b.text in ',)]}')):
+            problems.append(('R1', f'empty element after "," at offset {a.pos}: ...{text[max(0, a.pos - 25):a.pos + 15]!r}'))
+        if a.kind == 'punct' and a.text in '([{' and b is not None and b.kind == 'punct' and b.text == ',':
+            problems.append(('R1', f'empty element before "," at offset {b.pos}: ...{text[max(0, a.pos - 15):b.pos + 15]!r}'))
     # parameters
     params = {t.text for t in toks if t.kind == 'param'}
     # variables
